@@ -226,7 +226,16 @@ def _gen_otsvg(rng):
     over_ = _cfg_variants(rng, fmt)
     if rng.random() < 0.2:
         over_["reuse_tolerance"] = -1
-    return {"glyphs": e2e.gen_glyphset(rng), "overrides": over_}
+    glyphs = e2e.gen_glyphset(rng)
+    if rng.random() < 0.35:
+        # glyph names that are prefixes of one another (a sequence and its leading
+        # codepoint), in either input order
+        seqs = rng.choice([[(0x1F44B, 0x1F3FB), (0x1F44B,)], [(0x1F468,), (0x1F468, 0x200D, 0x1F469)], [(0x41, 0x42), (0x41,), (0x41, 0x42, 0x43)]])
+        seqs = list(seqs)
+        rng.shuffle(seqs)
+        for g, cps in zip(glyphs, seqs):
+            g.codepoints = cps
+    return {"glyphs": glyphs, "overrides": over_}
 
 
 def _svg_docs(font):
